@@ -34,7 +34,8 @@ one() {
   if find $wt -name "zz_seed_*" | grep -q .; then
     demo="fails"
     pkgs=$(cd $wt && find . -name "zz_seed_*" | xargs -n1 dirname | sort -u)
-    ( cd $wt && go test -vet=off -count=1 $pkgs >/dev/null 2>&1 ) && demo="PASSES"
+    race=$(python3 -c "import json; print('-race' if json.load(open('$d/meta.json')).get('demo_race') else '')")
+    ( cd $wt && go test $race -vet=off -count=1 $pkgs >/dev/null 2>&1 ) && demo="PASSES"
     find $wt -name "zz_seed_*" -delete
   fi
   if python3 -c "import json,sys; sys.exit(0 if json.load(open('$d/meta.json')).get('neutralised') else 1)"; then
